@@ -370,3 +370,36 @@ V("C10", "blank-header-lines-unmarked", "F", "R3", R + "comment.py", "          
   "            line_result = \"\"\n            if line:\n                line_result = cls.SINGLE_LINE + cls.INDENT_AFTER_SINGLE + line\n            result.append(line_result)\n        return \"\\n\".join(result)\n\n    @classmethod\n    def _create_comment_multi")
 V("C10", "separator-after-existing-header", "F", "R5", HDP, '        if not has_existing_header and not after.startswith("\\n"):', '        if not after.startswith("\\n"):')
 V("C10", "lisp-regexp-needs-two", "F", "R3", R + "comment.py", 'SINGLE_LINE_REGEXP = re.compile(r"^;+\\s*")', 'SINGLE_LINE_REGEXP = re.compile(r"^;;;;+\\s*")')
+
+# ----------------------------------------------------------------- benign refactors (must stay silent)
+def S(prop, vid, file, old, new):
+    VARIANTS.append({"prop": prop, "id": f"{prop}:benign-{vid}", "expect": "S", "rule": "", "edits": [], "sed": (file, old, new)})
+
+
+S("C01", "rename-file_report", RPT, "file_report", "frep")
+S("C13", "rename-file_report", RPT, "file_report", "frep")
+S("C06", "rename-file_report", RPT, "file_report", "frep")
+S("C18", "rename-file_report", RPT, "file_report", "frep")
+S("C14", "rename-file_report", RPT, "file_report", "frep")
+S("C13", "rename-lic-loopvar", LNT, "for lic in", "for licence in")
+S("C02", "rename-read_limit", EXP, "read_limit", "limit")
+S("C02", "log-message", EXP, "seems to contain an SPDX Snippet", "looks like it has an SPDX snippet")
+S("C04", "rename-file_result", PRJ, "file_result", "own_info")
+S("C03", "inline-name", R + "covered_files.py", "pattern.match(name)", "pattern.match(path.name)")
+S("C08", "rename-line_ending", ANP, "line_ending", "eol")
+S("C11", "rename-line_ending", ANP, "line_ending", "eol")
+S("C15", "rename-destination", R + "download.py", "destination", "dest")
+S("C19", "rename-destination", R + "download.py", "destination", "dest")
+S("C15", "rename-comment_style", ANP, "comment_style", "cstyle")
+S("C07", "rename-comment_style", ANP, "comment_style", "cstyle")
+S("C11", "rename-comment_style", ANP, "comment_style", "cstyle")
+S("C09", "rename-existing_spdx", R + "header.py", "existing_spdx", "existing")
+S("C16", "rename-annotation_dicts", GLP, "annotation_dicts", "raw_annotations")
+S("C05", "rename-blocks", GLP, "blocks", "pieces")
+S("C17", "rename-paragraph_result", R + "convert_dep5.py", "paragraph_result", "entry")
+S("C20", "rename-copyright_in", CPP, "copyright_in", "parsed")
+S("C10", "rename-copyright_in", CPP, "copyright_in", "parsed")
+S("C12", "rename-ignore_start", EXP, "ignore_start", "start_idx")
+S("C14", "rename-found", GLP, "found", "relevant")
+S("C04", "rename-found", GLP, "found", "relevant")
+S("C18", "rename-out", RPT, "out.write(", "buf.write(")
